@@ -168,6 +168,8 @@ type c11Scenario struct {
 
 const c11GoodData = `[{"@id":"http://ex.org/n","@type":["http://ex.org/T"],"http://ex.org/c":[{"@id":"http://ex.org/m"}]},{"@id":"http://ex.org/m","@type":["http://ex.org/T"],"http://ex.org/a":[{"@value":"v"}]}]`
 
+const c11KeysProfile = "profile: x\nprefixes: {ex: \"http://ex.org/\"}\nviolation: [v]\nvalidations:\n  v:\n    targetClass: ex.T\n    rego: |\n      tags = object.get($node, \"http://ex.org/tag\", [])\n      by_lower = {lower(t): t | t = tags[_]}\n      $result = (count(by_lower) > 5)\n"
+
 func c11Scenarios() []c11Scenario {
 	good := c17GoodProfile
 	sc := []c11Scenario{
@@ -191,6 +193,9 @@ func c11Scenarios() []c11Scenario {
 		{"data-jsonld-rejected", good, `{"@context": 5}`, "", 4},
 		{"data-jsonld-bad-id", good, `[{"@id": 5, "@type": "http://ex.org/T"}]`, "", 4},
 		{"evaluation-conflict", "profile: x\nprefixes: {ex: \"http://ex.org/\"}\nrego_extensions: |\n  conflicting(x) = 1 { true }\n  conflicting(x) = 2 { true }\nviolation: [v]\nvalidations:\n  v:\n    targetClass: ex.T\n    rego: \"$result = (conflicting(1) == 1)\"\n", c11GoodData, "", 5},
+		// an evaluation error that depends on the data: object keys of a comprehension collide for one document only
+		{"evaluation-key-collision", c11KeysProfile, `[{"@id":"http://ex.org/n","@type":["http://ex.org/T"],"http://ex.org/tag":[{"@value":"Alpha"},{"@value":"alpha"}]}]`, "", 5},
+		{"success-embedded-rego", c11KeysProfile, `[{"@id":"http://ex.org/n","@type":["http://ex.org/T"],"http://ex.org/tag":[{"@value":"Alpha"},{"@value":"beta"}]}]`, "", -1},
 	}
 	for i, st := range c11Stages {
 		for _, kind := range []string{"error", "panic"} {
@@ -206,7 +211,7 @@ func c11Scenarios() []c11Scenario {
 func c11(tier string) {
 	ctx := lib.NewCtx("C11", tier)
 	ctx.Level = "fault_enumeration"
-	ctx.Rule = "complete enumeration of (failure point x entry point x channel kind): 7 pipeline stages x {injected error, injected panic} through the verif hook + 14 input-driven failures (YAML, structure, unknown prefix, bad path, Rego syntax, unsafe built-in, truncated / empty / non-JSON data, JSON-LD rejections, evaluation conflict) + 6 successes (incl. node-less documents and source maps) x 6 entry-point shapes (Validate, ValidateWithConfiguration, CompileProfile alone, CompileProfile then ValidateCompiled on the same channel, ValidateCompiled, ValidateCompiledWithConfiguration) x {buffered channel, unbuffered channel with a prompt consumer, unbuffered channel with a consumer that pauses 70 ms every third event, nil}; an online checker accepts exactly the prefixes of the expected word; closedness is decided by a second close under recover; milestones are regenerated from the drained events; " +
+	ctx.Rule = "complete enumeration of (failure point x entry point x channel kind): 7 pipeline stages x {injected error, injected panic} through the verif hook + 15 input-driven failures (YAML, structure, unknown prefix, bad path, Rego syntax, unsafe built-in, truncated / empty / non-JSON data, JSON-LD rejections, evaluation conflicts: of a function, and of object keys for one document only) + 7 successes (incl. node-less documents, source maps, embedded Rego) x 6 entry-point shapes (Validate, ValidateWithConfiguration, CompileProfile alone, CompileProfile then ValidateCompiled on the same channel, ValidateCompiled, ValidateCompiledWithConfiguration) x {buffered channel, unbuffered channel with a prompt consumer, unbuffered channel with a consumer that pauses 70 ms every third event, nil}; an online checker accepts exactly the prefixes of the expected word; closedness is decided by a second close under recover; milestones are regenerated from the drained events; " +
 		"non-trivial & distinct = cell of the matrix in which a channel was supplied"
 	ctx.Assumptions = []string{"no milestone is demanded for RegoCompilation (the public Operation enumeration has no such member)", "hook faults fire right after the stage's Start event: the expected trace is exactly the word up to that Start"}
 	scs := c11Scenarios()
